@@ -87,8 +87,9 @@ def run_check(pid, tier="quick", seed=0, replay=None):
     problems = []          # (kind, text) ; kind in proof / audit / build
     violations = []        # replay paths
     known_hits = {}
-    with core.BuildLock():
-        ok, out = core.gen_consts()
+    if True:   # builds are serialised where they share output: gen_consts (lock), coqmk (flock), cargo (its own lock); drivers are per property
+        with core.BuildLock():
+            ok, out = core.gen_consts()
         if not ok:
             problems.append(("translator", out[-2000:]))
         targets = [f"theories/Properties/{pid}.vo", f"theories/Properties/{pid}Pins.vo", f"theories/Model/Entry_{pid}.vo"]
